@@ -72,7 +72,13 @@ class C11Spec(explore.Spec):
                 except Exception as exc:  # pylint: disable=broad-except
                     viols.append(Violation(PROP, f"load-raises|{fmt}|{type(exc).__name__}", f"loading the {fmt} file raised {type(exc).__name__}: {short(str(exc))}", replay))
                     continue
-                got = w2.tree()
+                try:
+                    got = w2.tree()
+                except Exception as exc:  # pylint: disable=broad-except
+                    kinds = sorted({type(x).__name__ for x in w2.gw.sensors.values()})
+                    viols.append(Violation(PROP, f"load-yields-malformed-objects|{fmt}|{type(exc).__name__}", f"the {fmt} file loads to objects that are not nodes ({kinds}): {type(exc).__name__}: {short(str(exc))}", replay))
+                    w2.close()
+                    continue
                 restored[fmt] = got
                 monitor.stats["loads"] += 1
                 if got != original:
@@ -83,6 +89,18 @@ class C11Spec(explore.Spec):
                         viols.append(Violation(PROP, f"transient-resurrected|{fmt}", f"{fmt}: node {nid} came back with transient state", replay))
                     if type(sensor.queue).__name__ != "deque" or not isinstance(sensor.new_state, dict):
                         viols.append(Violation(PROP, f"transient-shape|{fmt}", f"{fmt}: node {nid} transient fields have the wrong shape", replay))
+                # loaded nodes are independent objects: putting one restored node to sleep (and withholding a
+                # reply for it) must not give any other restored node transient state
+                sleeper = next((nid for nid, sn in w2.gw.sensors.items() if sn.children and 0 < nid < 255), None)
+                if sleeper is not None and len(w2.gw.sensors) > 1 and cfg["version"] >= "2.0":
+                    wake = "22" if cfg["version"] in ("2.0", "2.1") else "32"
+                    w2.apply(("rx", f"{sleeper};255;3;0;{wake};7"))
+                    w2.apply(("rx", f"{sleeper};255;3;0;6;0"))
+                    monitor.stats["post_load_independence_probes"] += 1
+                    for nid, sensor in w2.gw.sensors.items():
+                        if nid != sleeper and (sensor.new_state or len(sensor.queue) or sensor.reboot):
+                            viols.append(Violation(PROP, f"restored-nodes-share-transient-state|{fmt}", f"{fmt}: after loading, node {sleeper} went to sleep and node {nid} picked up its transient state", replay))
+                            break
                 w2.close()
             finally:
                 shutil.rmtree(directory, ignore_errors=True)
